@@ -6,3 +6,5 @@ fn p(s: &str) { let parser = CooklangParser::new(Extensions::all(), Converter::d
 #[test] fn d5_note_after_multibyte() { let parser = CooklangParser::new(Extensions::all(), Converter::default()); let r = parser.parse("~thé(note)"); let mut out = Vec::new(); r.report().write("f", "~thé(note)", false, &mut out).unwrap(); }
 #[test] fn d7_ast_frontmatter() { let pp = cooklang::parser::PullParser::new("---\na: 1\n---\nstep", Extensions::all()); let _ = cooklang::ast::build_ast(pp); }
 #[test] fn d4_aisle() { let _ = cooklang::aisle::parse("[a]\n|"); }
+// d9 (fixed by 499bf89): before the fix this printed a warning for the effective lock
+#[test] fn d9_effective_scaling_lock_warns() { let parser = CooklangParser::new(Extensions::all(), Converter::default()); let r = parser.parse("@flour{=100%g}\n"); assert_eq!(r.report().iter().count(), 0, "a well-formed recipe must not produce a warning"); }
